@@ -139,7 +139,7 @@ theorem isGreatest_absValues (cps : List (List (ℝ × ℝ)))
   · rintro v ⟨⟨k, t⟩, rfl⟩
     simp only [evalDepth]
     cases hk : cps[k]? with
-    | none => simpa using abs_nonneg _
+    | none => simp
     | some l' =>
       have hl' : l' ∈ cps := List.mem_of_getElem? hk
       apply evalPL_abs_le l' (hwf _ hl').1 _ (abs_nonneg _)
